@@ -379,8 +379,27 @@ fn apply(st: &mut St, op: &J) -> Result<Map<String, J>, csl::JsError> {
         }
         "SetProposals" => {
             let mut pb = csl::VotingProposalBuilder::new();
-            for p in op["props"].as_array().unwrap() { pb.add(&mk::proposal(p))?; }
+            let mut attach = vec![];
+            for p in op["props"].as_array().unwrap() {
+                if let Some(w) = p.get("w") {
+                    // a proposal guarded by the constitution's proposal policy (guardrail script): treasury withdrawal or parameter change
+                    let sid = w["s"].as_u64().unwrap() as u8;
+                    let sh = pscript(sid).hash();
+                    let act = if p.get("pc").and_then(|x| x.as_bool()).unwrap_or(false) {
+                        let mut u = csl::ProtocolParamUpdate::new(); u.set_max_tx_size(16384 + sid as u32);
+                        csl::GovernanceAction::new_parameter_change_action(&csl::ParameterChangeAction::new_with_policy_hash(&u, &sh))
+                    } else {
+                        let mut tw = csl::TreasuryWithdrawals::new();
+                        tw.insert(&mk::reward_addr(0, &mk::gcred(p["cred"]["k"].as_u64().unwrap_or(7) as u8)), &bn_of(&p["dep_n"]).checked_add(&csl::BigNum::from(1u64))?);
+                        csl::GovernanceAction::new_treasury_withdrawals_action(&csl::TreasuryWithdrawalsAction::new_with_policy_hash(&tw, &sh))
+                    };
+                    let prop = csl::VotingProposal::new(&act, &mk::anchor(), &mk::reward_addr(0, &mk::gcred(p["cred"]["k"].as_u64().unwrap_or(7) as u8)), &bn_of(&p["dep_n"]));
+                    pb.add_with_plutus_witness(&prop, &plutus_witness(st, w, &csl::RedeemerTag::new_voting_proposal()))?;
+                    attach.push(json!({"rid": w["rid"], "purpose": 5, "item": jbytes(&prop.to_bytes()), "sh": jbytes(&sh.to_bytes()), "lang": pscript(sid).language_version().kind() as u64 + 1, "db": []}));
+                } else { pb.add(&mk::proposal(p))?; }
+            }
             st.tb.set_voting_proposal_builder(&pb);
+            if !attach.is_empty() { res.insert("attach".into(), J::Array(attach)); }
         }
         "SetDonation" => st.tb.set_donation(&bn_of(&op["n"])),
         "SetTreasury" => st.tb.set_current_treasury_value(&bn_of(&op["n"]))?,
@@ -516,6 +535,31 @@ pub fn run_one(out: &mut Out, sc: usize, s: &J) {
         if c0 <= give + 1_000_000 { return; }
         s2["utxo"][0]["value"]["coin_n"] = jn(c0 - give);
         run_pass(out, sc, &s2);
+    } else if let Some(d) = rr.get("width_edge").and_then(|x| x.as_i64()) {
+        // the minimum coin of the LAST output (change) placed just below the point where the coin field of an output widens
+        // (2^16: 3 -> 5 bytes; the wider field makes the output larger and its minimum higher) and the coin itself aimed just above
+        // it. Second pass: the price per byte that puts the minimum there; third pass: the first UTxO gives up the difference.
+        let outs = tx.body().outputs();
+        if outs.len() == 0 { return; }
+        let last = outs.get(outs.len() - 1);
+        let mut narrow = last.amount(); narrow.set_coin(&csl::BigNum::from(65535u64));
+        let mut o3 = csl::TransactionOutput::new(&last.address(), &narrow);
+        if let Some(x) = last.plutus_data() { o3.set_plutus_data(&x); }
+        if let Some(x) = last.data_hash() { o3.set_data_hash(&x); }
+        if let Some(x) = last.script_ref() { o3.set_script_ref(&x); }
+        let cpb = 65535 / (160 + o3.to_bytes().len() as u64);
+        s2["pp"]["cpb"] = json!(cpb);
+        let tx2 = match run_pass(out, sc, &s2) { Some((t, _)) => t, None => return };
+        let outs2 = tx2.body().outputs();
+        if outs2.len() == 0 { return; }
+        let c: u64 = outs2.get(outs2.len() - 1).amount().coin().into();
+        let target = (65536 + d).max(0) as u64;
+        if c <= target { return; }
+        let give = c - target;
+        let c0 = u64_of(&s2["utxo"][0]["value"]["coin_n"]);
+        if c0 <= give + 1_000_000 { return; }
+        s2["utxo"][0]["value"]["coin_n"] = jn(c0 - give);
+        run_pass(out, sc, &s2);
     } else if let Some(k) = rr.get("max_val").and_then(|x| x.as_u64()) {
         // max_value_size just below the largest value the first transaction carries
         let outs = tx.body().outputs();
@@ -595,7 +639,9 @@ fn run_pass(out: &mut Out, sc: usize, s: &J) -> Option<(csl::Transaction, usize)
             // build() gets: it is logged as well ("unsafe"), the obligations of a reported-successful balancing still apply
             let (r, unsafe_) = match call(|| tb.build_tx()) {
                 Outcome::Ok(tx) => (Outcome::Ok(tx), false),
-                Outcome::Err(e1) => match call(|| tb.build_tx_unsafe()) { Outcome::Ok(tx) => { let _ = e1; (Outcome::Ok(tx), true) } , _ => (Outcome::Err(e1), false) },
+                // (cost bound: after a balancing that never succeeded a failed change attempt may leave hundreds of outputs behind; such
+                // an unvalidated transaction carries no obligation of a successful balancing and is not logged beyond 8 KiB)
+                Outcome::Err(e1) => match call(|| tb.build_tx_unsafe()) { Outcome::Ok(tx) if balanced_ok || tx.to_bytes().len() <= 8192 => { let _ = e1; (Outcome::Ok(tx), true) } , _ => (Outcome::Err(e1), false) },
                 Outcome::Panic(p) => (Outcome::Panic(p), false),
             };
             let ev = match r {
@@ -718,11 +764,20 @@ pub fn gen(rng: &mut Rng) -> J {
     let col = rng.chance(1, 3);
     let mut col_pct: Option<u64> = None;
     if col {
-        let cu = 1 + rng.below(nu);
-        ops.push(json!({"op": "AddCollateral", "u": cu}));
-        let cv = &utxo[(cu - 1) as usize]["value"];
-        let ccoin = u64_of(&cv["coin_n"]);
-        let cassets = cv["assets"].clone();
+        // one to three collateral inputs; their values add up (the same asset may sit in several of them)
+        let mut cus: Vec<u64> = vec![1 + rng.below(nu)];
+        if rng.chance(1, 3) { for _ in 0..1 + rng.below(2) { let c = 1 + rng.below(nu); if !cus.contains(&c) { cus.push(c); } } }
+        let mut ccoin = 0u64;
+        let mut merged: Vec<J> = vec![];
+        for cu in cus.iter() {
+            ops.push(json!({"op": "AddCollateral", "u": cu}));
+            let cv = &utxo[(*cu - 1) as usize]["value"];
+            ccoin = ccoin.saturating_add(u64_of(&cv["coin_n"]));
+            for a in cv["assets"].as_array().cloned().unwrap_or_default() {
+                if let Some(m) = merged.iter_mut().find(|m| m["p"] == a["p"] && m["n"] == a["n"]) { m["q_n"] = jn(u64_of(&m["q_n"]).saturating_add(u64_of(&a["q_n"]))); } else { merged.push(a); }
+            }
+        }
+        let cassets = J::Array(merged);
         let to = json!({"kind": *rng.pick(&["ent", "base"]), "k": 16});
         let h = match rng.below(6) {
             0 | 1 => { // explicit return: assets equal / fewer / more / different than the inputs'
@@ -759,6 +814,7 @@ pub fn gen(rng: &mut Rng) -> J {
         ops.retain(|o| o["op"] != "AddCollateral");
         let cu = 1 + rng.below(nu);
         ops.insert(0, json!({"op": "AddCollateral", "u": cu}));
+        if rng.chance(1, 3) { let c2 = 1 + rng.below(nu); if c2 != cu { ops.insert(1, json!({"op": "AddCollateral", "u": c2})); } }
         ops.push(json!({"op": "AddInputsFromAndChangeWithCollateralReturn", "strat": *rng.pick(&["LargestFirstMultiAsset", "RandomImproveMultiAsset"]), "us": us, "to": to, "seed": rng.below(1000), "pct_n": jn(pct)}));
     } else if select {
         let us: Vec<u64> = (1..=nu).collect();
@@ -783,7 +839,7 @@ pub fn gen(rng: &mut Rng) -> J {
     ops.push(json!({"op": "Build"}));
     if rng.chance(1, 4) { ops.push(json!({"op": "BuildAgain"})); }
     let mut scn = json!({"pp": pp, "utxo": utxo, "ops": ops});
-    match rng.below(12) { 0 => { scn["rerun"] = json!({"max_tx": rng.below(3)}); } 1 => { scn["rerun"] = json!({"fixed_fee": rng.below(1001)}); } 2 => { scn["rerun"] = json!({"max_val": rng.below(4)}); } 3 | 4 => { scn["rerun"] = json!({"change_edge": rng.below(8000) as i64 - 2000}); } _ => {} }
+    match rng.below(12) { 0 => { scn["rerun"] = json!({"max_tx": rng.below(3)}); } 1 => { scn["rerun"] = json!({"fixed_fee": rng.below(1001)}); } 2 => { scn["rerun"] = json!({"max_val": rng.below(4)}); } 3 | 4 => { scn["rerun"] = json!({"change_edge": rng.below(8000) as i64 - 2000}); } 5 | 6 => { scn["rerun"] = json!({"width_edge": rng.below(700) as i64 - 100}); } _ => {} }
     scn
 }
 
@@ -904,9 +960,24 @@ pub fn gen_plutus(rng: &mut Rng) -> J {
         ops.push(json!({"op": "SetWithdrawals", "wds": wds}));
     }
     if rng.chance(1, 4) {
-        let mut votes = vec![json!({"kind": *rng.pick(&["drep_key", "cc_key", "spo"]), "k": 7, "act": 1})];
-        if rng.chance(1, 2) { let sid = 1 + rng.below(5); rid += 1; votes.push(json!({"kind": *rng.pick(&["drep_script", "cc_script"]), "act": 2, "w": {"s": sid, "rid": rid, "script": src[&sid], "datum": "none", "ex": ex(rng)}})); }
+        // one to three key voters of any kind and up to two script voters (committee / DRep), in any order of the calls
+        let mut votes = vec![];
+        let mut used = BTreeSet::new();
+        for _ in 0..1 + rng.below(3) { let kind = *rng.pick(&["drep_key", "cc_key", "spo"]); let k = 7 + rng.below(3); if used.insert((kind, k)) { votes.push(json!({"kind": kind, "k": k, "act": 1})); } }
+        let mut sids = BTreeSet::new();
+        for _ in 0..rng.below(3) { let sid = 1 + rng.below(5); let kind = *rng.pick(&["drep_script", "cc_script"]); if sids.insert((kind, sid)) { rid += 1; votes.push(json!({"kind": kind, "act": 2, "w": {"s": sid, "rid": rid, "script": src[&sid], "datum": "none", "ex": ex(rng)}})); } }
+        for i in (1..votes.len()).rev() { let j = rng.below(i as u64 + 1) as usize; votes.swap(i, j); }
         ops.push(json!({"op": "SetVotes", "votes": votes}));
+    }
+    if rng.chance(1, 5) {
+        // proposals: plain ones and ones guarded by the proposal policy script, in any order of the calls
+        let mut props = vec![];
+        for i in 0..1 + rng.below(3) {
+            let dep = *rng.pick(&[0u64, 1_000_000, 2_000_000]);
+            if rng.chance(1, 2) { let sid = 1 + rng.below(5); rid += 1; props.push(json!({"dep_n": jn(dep + i), "cred": {"k": 7 + i}, "pc": rng.chance(1, 3), "w": {"s": sid, "rid": rid, "script": src[&sid], "datum": "none", "ex": ex(rng)}})); }
+            else { props.push(json!({"dep_n": jn(dep + i), "cred": {"k": 7 + i}})); }
+        }
+        ops.push(json!({"op": "SetProposals", "props": props}));
     }
     if rng.chance(1, 3) { ops.push(json!({"op": "AddExtraDatum", "n": *rng.pick(&[500u64, 501, 900])})); }
     if rng.chance(1, 5) { ops.push(json!({"op": "AddExtraDatum", "n": 900})); }
